@@ -661,7 +661,7 @@ func (w *c03World) worldChange() {
 		gen := &vk.RGen{R: w.r, Groups: verifGroups, NeighbourBias: 0.1, V6Slash0: true, MaxRules: 6}
 		if w.r.IntN(3) == 0 {
 			// the extreme swaps: everything plain direct / everything to one group / everything blocked
-			p := &vk.RProg{Fallback: vk.ROut{Name: []string{"direct", "direct", "g1", "block"}[w.r.IntN(4)]}}
+			p := &vk.RProg{Fallback: vk.ROut{Name: []string{"direct", "direct", verifGroups[1], "block"}[w.r.IntN(4)]}}
 			if w.loadRules(p) {
 				w.m.Count("rule_swaps_midflow", 1)
 				w.m.Count("rule_swaps_to_constant_program", 1)
